@@ -56,15 +56,21 @@ def analyse(dsk, out_keys):
 
 
 def run_program(chk, da, prog, sources, optimize, coq_cases):
-    from dask_array import _materialize
-    _materialize._LOWER_CACHE.clear()
     for o in progs.ops_in(prog):
         chk.count("op:" + o)
-    desc = progs.describe(prog, sources)
+    run_collection(chk, lambda: progs.build(prog, da, sources, memo={}), progs.describe(prog, sources),
+                   ("prog", progs.show(prog), repr([(s[0].shape, s[1]) for s in sources]), optimize), prog[0],
+                   any(q[0] == "broadcast_to" for q in progs.all_nodes(prog)), optimize, coq_cases, {})
+
+
+def run_collection(chk, mk, desc, case_key, root_op, has_bt, optimize, coq_cases, cfg):
+    """the property for ONE collection built by mk() under array.optimize-graph = `optimize` (+ extra configuration `cfg`)"""
+    from dask_array import _materialize
+    _materialize._LOWER_CACHE.clear()
     try:
-        with dask.config.set({"array.optimize-graph": optimize}), warnings.catch_warnings():
+        with dask.config.set({"array.optimize-graph": optimize, **cfg}), warnings.catch_warnings():
             warnings.simplefilter("ignore")
-            arr = progs.build(prog, da, sources, memo={})
+            arr = mk()
             name0 = arr.name
             keys = list(flat_keys(arr.__dask_keys__()))
             numblocks = tuple(arr.numblocks)
@@ -73,9 +79,9 @@ def run_program(chk, da, prog, sources, optimize, coq_cases):
             name_expr = arr.expr._name
     except Exception as e:  # noqa: BLE001
         chk.count("skipped:raises:" + err_sig(e)[:24])
-        chk.case(("prog", progs.show(prog), optimize), nontrivial=False)
+        chk.case(case_key[:2] + (optimize,), nontrivial=False)
         return
-    chk.case(("prog", progs.show(prog), repr([(s[0].shape, s[1]) for s in sources]), optimize), nontrivial=len(dsk) > 2,
+    chk.case(case_key, nontrivial=len(dsk) > 2,
              sample={**desc, "optimize_graph": optimize, "tasks": len(dsk), "out_keys": len(keys)} if len(dsk) <= 12 else None)
     problems = []
     grid = [(name0, *idx) for idx in itertools.product(*[range(n) for n in numblocks])]
@@ -87,14 +93,40 @@ def run_program(chk, da, prog, sources, optimize, coq_cases):
     problems += p2
     chk.count(f"graph:{'opt' if optimize else 'raw'}:{min(len(dsk) // 10 * 10, 100)}+tasks")
     if problems:
-        chk.violation("; ".join(problems[:3]), {**desc, "optimize_graph": optimize, "tasks": len(dsk)},
-                      signature={"class": "graph", "problem": problems[0][:30].strip("0123456789 "), "root_op": prog[0],
-                                 "has_broadcast_to": any(q[0] == "broadcast_to" for q in progs.all_nodes(prog))})
+        chk.violation("; ".join(problems[:3]), {**desc, "optimize_graph": optimize, "config": cfg, "tasks": len(dsk)},
+                      signature={"class": "graph", "problem": problems[0][:30].strip("0123456789 "), "root_op": root_op,
+                                 "has_broadcast_to": has_bt})
     else:
         chk.traces_validated += 1
         if G is not None and len(dsk) <= 1500:
             g, ids, dangling = G.reify(dsk, keys)
             coq_cases.append(((g, G.topo_order(g), tuple(numblocks), G.block_indices(arr.__dask_keys__()), G.out_ids(ids, keys)), desc))
+
+
+def multi_stage_rechunk_graphs(chk, da, coq_cases):
+    """rechunks whose plan has three or more stages (splits in several intermediate stages) and that really lower to a task
+    rechunk: per-stage task names must not collide when the stage layers are merged"""
+    from dask_array._rechunk import plan_rechunk
+    cases = []
+    for limit, n_in, n_out in ((4, 1, 30), (4, 30, 1), (3, 2, 40), (2, 1, 9), (2, 16, 3), (4, 3, 50)):
+        cases.append((f"1-d {n_in}->{n_out} blocks, degree-limit={limit}", limit,
+                      lambda n_in=n_in, n_out=n_out: (da.ones(n_in * n_out * 2, chunks=n_out * 2, dtype="int64") + 1).rechunk(n_in * 2)))
+    for limit in (2, 4):
+        cases.append((f"2-d rows->columns 12x12, degree-limit={limit}", limit,
+                      lambda: (da.ones((12, 12), chunks=(1, 12), dtype="int64") + 1).rechunk((12, 1))))
+    if chk.tier == "thorough":
+        cases.append(("1-d 1->10001 blocks, default degree limit", None, lambda: (da.ones(10001, chunks=10001, dtype="int64") + 1).rechunk(1)))
+    for label, limit, mk in cases:
+        cfg = {} if limit is None else {"array.rechunk.degree-limit": limit}
+        try:
+            with dask.config.set(cfg):
+                e = mk().expr
+                st = plan_rechunk(e.array.chunks, e.chunks, e.dtype.itemsize, e.threshold, e.block_size_limit)
+            chk.count("multi-stage-rechunk:stages=" + str(min(len(st), 5)))
+        except Exception as ex:  # noqa: BLE001
+            chk.count("multi-stage-rechunk:plan-unavailable:" + type(ex).__name__)
+        for optimize in (True, False):
+            run_collection(chk, mk, {"program": label}, ("multi-stage-rechunk", label, optimize), "rechunk", False, optimize, coq_cases, cfg)
 
 
 def replay(path):
@@ -117,6 +149,12 @@ def run(chk: Check):
     n = 8000 if chk.tier == "thorough" else 800
     for i, (prog, sources, want) in enumerate(progs.gen_programs(chk.rng, n)):
         run_program(chk, da, prog, sources, optimize=(i % 2 == 0), coq_cases=coq_cases)
+    import random as _random
+    api_rng = _random.Random(f"{chk.pid}-api-family-{chk.seed}")      # own stream: the families above keep theirs
+    for i, (prog, sources, want) in enumerate(progs.gen_api_programs(api_rng, 4000 if chk.tier == "thorough" else 400)):
+        chk.count("api-call:" + next(q[1] for q in progs.all_nodes(prog) if q[0] == "call"))
+        run_program(chk, da, prog, sources, optimize=(i % 2 == 0), coq_cases=coq_cases)
+    multi_stage_rechunk_graphs(chk, da, coq_cases)
     if G is not None and coq_cases:
         if chk.tier == "quick":
             coq_cases = coq_cases[:200]      # the rest is checked by the Python analysis only (coqc parsing dominates)
